@@ -2,7 +2,7 @@
    Sweep protocol of mps_common.py (Model/Sweep.v); only statements here, every proof is `exact <lemma of
    Proofs/SweepP.v or Proofs/SweepP2.v>`.  Energy / convergence / canonical-form clauses are decided by the oracle of
    harness/c13.py (exact diagonalisation) only; see T13_energy_variational_partial. *)
-From TenpyV Require Import Base.Prelude Model.Charge Model.Sweep Model.SweepCharge Model.SweepInf Proofs.SweepP Proofs.SweepP2 Proofs.SweepChargeP Proofs.SweepInfP Proofs.SweepInfP2.
+From TenpyV Require Import Base.Prelude Model.Charge Model.Sweep Model.SweepCharge Model.SweepInf Proofs.SweepP Proofs.SweepP2 Proofs.SweepChargeP Proofs.SweepInfP Proofs.SweepInfP2 Model.SweepStop Proofs.SweepStopP.
 
 (* get_sweep_schedule, finite and infinite bc, n = 1, 2, every L > n.  With m right moves (L - n finite, L infinite):
    the schedule has 2m entries; position i is optimised moving right for every i < m and moving left for every
@@ -140,6 +140,44 @@ Example T13_example_inf_run : no_stale_inf 4 2 2 = true /\
     Some [true; true; true; false; false; false; false; false; false; false].
 Proof. vm_compute. repeat split; reflexivity. Qed.
 
+(* chi lists and sweep counts (Model/SweepStop.v: IterativeSweeps.run / stopping_criterion, the chi_list / mixer handling of
+   Sweep.sweep, Mixer.update_amplitude and the default of min_sweeps derived in DMRGEngine.__init__ / VUMPSEngine.__init__).
+   For EVERY option set with a non-empty chi_list l and EVERY sequence of answers of is_converged(): the optimisation sweeps that
+   were run are numbered 0 .. n-1 and each ran with the chi_max of the largest key of l that is <= its number (`latest`: the documented
+   meaning of chi_list; chi0 = trunc_params['chi_max'] before the first key); and when min_sweeps is left at its DEFAULT and run() stops
+   because the run is converged (not because of max_sweeps), more sweeps than the last key of l were made, every entry (k, c) of l came
+   into force in sweep k, the chi_max in force at the end is the last entry of l and the mixer is off.  Tie to the code: correspondence
+   stream stop-trace (check_stop_run) on every DMRG / VUMPS run of harness/c13.py. *)
+Theorem T13_chi_ramp_completes : forall o l convs reason st recs rest,
+  o_chis o = Some l -> l <> [] ->
+  run_model o convs = Some (reason, st, recs, rest) ->
+  map rec_no recs = seq 0 (s_sweeps st) /\
+  Forall (fun r => rec_chi r = latest l (o_chi0 o) (rec_no r)) recs /\
+  (reason = Converged -> o_min o = None ->
+     (max_key l < s_sweeps st)%nat /\
+     (forall k c, chi_get l k = Some c -> In (k, Some c) (map fst recs)) /\
+     s_chi st = chi_get l (max_key l) /\ s_mixer st = None).
+Proof. exact chi_ramp_completes. Qed.
+
+(* `latest` is the value of the largest key <= s (or chi0 when there is none) *)
+Theorem T13_chi_list_latest : forall l chi0 s,
+  (exists k c, (k <= s)%nat /\ chi_get l k = Some c /\ latest l chi0 s = Some c /\
+               forall k', (k < k' <= s)%nat -> chi_get l k' = None) \/
+  (latest l chi0 s = chi0 /\ forall k', (k' <= s)%nat -> chi_get l k' = None).
+Proof. exact latest_spec. Qed.
+
+(* non-vacuity: chi_list {0: 2, 3: 16}, N_sweeps_check = 1, default min_sweeps (= 3), mixer with disable_after = 2, reactivated at sweep 3;
+   is_converged() answers true, true: after sweep 3 the mixer is switched off and the run continues, after sweep 4 it stops: 5 sweeps, chi_max = 16.  And with an explicit
+   min_sweeps = 1 the same run can stop as converged after 2 sweeps at chi_max = 2 (the default is needed). *)
+Example T13_example_ramp :
+  run_model (mkSopts 1 None 20 (Some [(0, 2); (3, 16)]%nat) None true true (Some 2%nat) None) [true; true] =
+  Some (Converged, mkSst 5 (Some 16%nat) None,
+        [(0, Some 2, true); (1, Some 2, true); (2, Some 2, false); (3, Some 16, true); (4, Some 16, false)]%nat, []).
+Proof. vm_compute. reflexivity. Qed.
+Example T13_example_early_stop : exists o l convs st recs rest,
+  o_chis o = Some l /\ run_model o convs = Some (Converged, st, recs, rest) /\ (s_sweeps st <= max_key l)%nat.
+Proof. exact early_stop_possible. Qed.
+
 Print Assumptions T13_schedule_covers.
 Print Assumptions T13_no_stale_env.
 Print Assumptions T13_energy_variational_partial.
@@ -150,3 +188,5 @@ Print Assumptions T13_charge_sector.
 Print Assumptions T13_charge_no_raise.
 Print Assumptions T13_charge_one_site_dm_mixer_refuted.
 Print Assumptions T13_charge_ed_all.
+Print Assumptions T13_chi_ramp_completes.
+Print Assumptions T13_chi_list_latest.
